@@ -722,6 +722,16 @@ pub fn sugg_corpus() -> Vec<Program> {
         mu.multiple = true;
         out.push(Program { decls: vec![st(vec![opt("lorem"), ren, sk, mu])], root: 0, family: "sugg flat-struct".into() });
     }
+    // P1c: names outside ASCII (similarity is a matter of characters, not bytes), also lent
+    // through a flatten member
+    {
+        let mut ren = opt("name_x");
+        ren.rename = Some("имя".into());
+        out.push(Program { decls: vec![st(vec![opt("über"), opt("öde"), opt("menu"), opt("manü"), ren])], root: 0, family: "sugg non-ascii".into() });
+        let mut fl = Field::new("inner", Ty::Struct(1));
+        fl.flatten = true;
+        out.push(Program { decls: vec![st(vec![opt("größe"), opt("grosse"), fl]), st(vec![opt("höhe"), opt("hohe")])], root: 0, family: "sugg non-ascii flatten".into() });
+    }
     // P2: flatten depth 1, skipped member inside the child
     {
         let mut sk = Field::new("secret", Ty::U32);
